@@ -63,7 +63,7 @@ class C07(Spec):
     trusted = ['modelled, not verified: the C statements of src/heap.c, cstl_fls (src/common.c) and the post-order clear of '
                'src/bintree.c are transcribed by hand into HeapModel.v (functional tree + zipper, explicit size field with '
                'unsigned int / size_t wrap-around); swapping a node with its parent is modelled as exchanging the two '
-               'elements; parent-pointer consistency is checked on the implementation by the driver at every step, not proved',
+               'elements (justified for cstl_heap_promote_child by the pointer-level theorems C07_promote_left/right_child over a hand transcription in HeapLinks.v that is not executed against the code); the remaining pointer writes of push/pop are checked on the implementation by the driver at every step (parent links, size field), not proved',
                'comparison callback modelled as the order on integer keys']
     assumptions_text = ['an element is pushed only while it is not in the heap (intrusive node)',
                         'theorems that need the navigation state size < 2^31 (unsigned int id, 1 << fls on int)']
